@@ -352,6 +352,33 @@ def run(tier, seed, replay=None):
     c10.report(rep, cases, mism, obad, "net")
     if maborts:
         rep.violation("model driver crashed", {"kind": "driver", "theorem_or_correspondence": "oratio_model net", "log": str(maborts[:3])}, no_input=True)
+    # the language level: relations between `tp` expressions must reach this theory and mean what they say
+    tp_stats = {}
+    try:
+        from .. import rgen, solcheck
+        from . import e2e
+        tprogs = [rgen.tp_program(rng) for _ in range(300 if tier == "quick" else 3000)]
+        for cfg in e2e.cfgs(tier):
+            outs = e2e.solve_all(cfg, [p[0] for p in tprogs])
+            worst = None
+            for (txt, meta), o in zip(tprogs, outs):
+                v = e2e.verdict(o)
+                key = v.split(":")[0]
+                msg = None
+                if v == "T":
+                    b = solcheck.check_constraints(e2e.solution(o), meta)
+                    key = "T-bad" if b else "T-ok"
+                    msg = b[0] if b else None
+                elif v == "F":
+                    msg = "a planted network of `tp` constraints is rejected as unsolvable"
+                tp_stats[f"{cfg}/{key}"] = tp_stats.get(f"{cfg}/{key}", 0) + 1
+                if msg and (worst is None or len(txt) < len(worst[0])):
+                    worst = (txt, o, msg)
+            if worst:
+                rep.violation(f"[{cfg}] tp relations: {worst[2][:300]}", e2e.replay_of(worst[0], cfg, worst[1]), tags={"tp-e2e:" + cfg})
+    except vlib.BuildFailure as e:
+        rep.violation("the solver does not build in a supported configuration", {"kind": "build", "theorem_or_correspondence": "cmake build of /repo", "log": str(e)}, no_input=True)
+    rep.cov["tp_end_to_end"] = tp_stats
     rep.cov.update({
         "evaluations": sum(v for k, v in n_ops.items() if "." in k and k.split(".")[1] in ("rel", "bounds", "distance", "equates")),
         "distinct_nontrivial": len(nontrivial),
